@@ -2308,5 +2308,33 @@ def data_sync_edge_calls():
     return {"res": len(res)}
 
 
+def data_cache_warmer_chained():
+    """Tiered warm-up: the L1 warmer fetches through an adapter that, on the second key (t = 1/3 s), starts
+    the L2 warmer and hands the L2 warmer's start event to the engine as a side effect of the fetch -
+    CacheWarmer.warm_keys relays it, so the push happens while a CacheWarmer is being delivered to."""
+    from happysimulator.components.datastore.cache_warming import CacheWarmer
+    from happysimulator.components.datastore.cached_store import CachedStore
+    from happysimulator.components.datastore.eviction_policies import LRUEviction
+    from happysimulator.components.datastore.kv_store import KVStore
+    _seed(91)
+    kv = KVStore("kv", read_latency=H3 / 10)
+    for i in range(4):
+        kv.put_sync(f"k{i}", i)
+    l1 = CachedStore("l1", kv, 4, LRUEviction(), cache_read_latency=NS)
+    l2 = CachedStore("l2", kv, 8, LRUEviction(), cache_read_latency=THIRD / 100)
+    w2 = CacheWarmer("warm2", l2, keys_to_warm=[f"k{i}" for i in range(4)], warmup_rate=1 / H3)
+
+    class Adapter:
+        """What the L1 warmer warms: L1 reads, plus the kick-off of the L2 warm-up."""
+
+        def get(self, key):
+            if key == "k1":
+                yield 0.0, [w2.start_warming()]
+            return (yield from l1.get(key))
+    w1 = CacheWarmer("warm1", Adapter(), keys_to_warm=[f"k{i}" for i in range(4)], warmup_rate=3.0)
+    _run([kv, l1, l2, w1, w2], [w1.start_warming()], end=6.0)
+    return {"w1": w1.stats.keys_warmed, "w2": w2.stats.keys_warmed, "w2_complete": w2.is_complete}
+
+
 # every scenario function of this module, by name (names start with "data_")
 SCENARIOS = {_k: _v for _k, _v in sorted(globals().items()) if _k.startswith("data_") and callable(_v)}
